@@ -86,6 +86,25 @@ __CPROVER_ensures((rxv_pk < __CPROVER_old(rxv_ncomp) || rxv_pk >= rxv_ncomp) ==>
 __CPROVER_ensures(S->f[0] == __CPROVER_old(S->f[0]) && S->f[1] == __CPROVER_old(S->f[1])
 	&& S->outlen == __CPROVER_old(S->outlen) && S->last_node == __CPROVER_old(S->last_node));
 
+/* the arithmetic part of the same contract (buffer length, number of compressions, 128-bit counter, frame), as a
+   separate contract symbol so that it can be enforced on its own (smaller solver query) */
+int rxv_update_arith(blake2b_state *S, const void *in, size_t inlen)
+__CPROVER_requires(__CPROVER_is_fresh(S, sizeof(*S)))
+__CPROVER_requires(inlen < RXV_MAX_LEN && (inlen == 0 || __CPROVER_is_fresh(in, inlen)))
+__CPROVER_requires(S->buflen <= 128 && rxv_pb < 128)
+__CPROVER_assigns(__CPROVER_object_whole(S), RXV_LOG_ASSIGNS)
+__CPROVER_ensures(inlen == 0 ==> (__CPROVER_return_value == 0 && rxv_ncomp == __CPROVER_old(rxv_ncomp) && S->buflen == __CPROVER_old(S->buflen)
+	&& S->t[0] == __CPROVER_old(S->t[0]) && S->t[1] == __CPROVER_old(S->t[1])))
+__CPROVER_ensures((inlen > 0 && __CPROVER_old(S->f[0]) != 0) ==> (__CPROVER_return_value == -1 && rxv_ncomp == __CPROVER_old(rxv_ncomp)
+	&& S->buflen == __CPROVER_old(S->buflen) && S->t[0] == __CPROVER_old(S->t[0]) && S->t[1] == __CPROVER_old(S->t[1])))
+__CPROVER_ensures(RXV_UPD_REGULAR(S, inlen) ==> (__CPROVER_return_value == 0
+	&& S->buflen == RXV_NEWBUFLEN(__CPROVER_old(S->buflen), inlen)
+	&& rxv_ncomp == __CPROVER_old(rxv_ncomp) + (RXV_TOTAL(S, inlen) - S->buflen) / 128
+	&& S->t[0] == __CPROVER_old(S->t[0]) + 128 * (rxv_ncomp - __CPROVER_old(rxv_ncomp))
+	&& S->t[1] == __CPROVER_old(S->t[1]) + (S->t[0] < __CPROVER_old(S->t[0]) ? 1 : 0)))
+__CPROVER_ensures(S->f[0] == __CPROVER_old(S->f[0]) && S->f[1] == __CPROVER_old(S->f[1])
+	&& S->outlen == __CPROVER_old(S->outlen) && S->last_node == __CPROVER_old(S->last_node));
+
 /* compression log during the block loop: records of earlier calls are kept; the call for the probed ordinal, once
    made, recorded the block byte / counter / flags the stream position demands */
 #define RXV_LOOP_LOG_KEPT (rxv_k_byte == __CPROVER_loop_entry(rxv_k_byte) && rxv_k_t0 == __CPROVER_loop_entry(rxv_k_t0) \
@@ -97,6 +116,17 @@ __CPROVER_ensures(S->f[0] == __CPROVER_old(S->f[0]) && S->f[1] == __CPROVER_old(
 		&& rxv_k_t0 == __CPROVER_loop_entry(S->t[0]) + 128 * (rxv_pk - __CPROVER_loop_entry(rxv_ncomp) + 1) \
 		&& rxv_k_t1 == __CPROVER_loop_entry(S->t[1]) + (rxv_k_t0 < __CPROVER_loop_entry(S->t[0]) ? 1 : 0) \
 		&& rxv_k_f0 == 0 && rxv_k_f1 == S->f[1])))
+
+#define RXV_UPDATE_LOOP_INVARIANT_ARITH \
+	__CPROVER_assigns(inlen, pin, __CPROVER_object_upto(S->h, sizeof(S->h)), __CPROVER_object_upto(S->t, sizeof(S->t)), RXV_LOG_ASSIGNS) \
+	__CPROVER_loop_invariant(__CPROVER_same_object(pin, in) && S->buflen == 0 && S->f[0] == 0) \
+	__CPROVER_loop_invariant(inlen >= 1 && inlen <= __CPROVER_loop_entry(inlen) && (__CPROVER_loop_entry(inlen) - inlen) % 128 == 0) \
+	__CPROVER_loop_invariant(__CPROVER_POINTER_OFFSET(pin) - __CPROVER_POINTER_OFFSET(__CPROVER_loop_entry(pin)) == (__CPROVER_ssize_t)(__CPROVER_loop_entry(inlen) - inlen)) \
+	__CPROVER_loop_invariant(rxv_ncomp == __CPROVER_loop_entry(rxv_ncomp) + (__CPROVER_loop_entry(inlen) - inlen) / 128) \
+	__CPROVER_loop_invariant(S->t[0] == __CPROVER_loop_entry(S->t[0]) + (__CPROVER_loop_entry(inlen) - inlen)) \
+	__CPROVER_loop_invariant(S->t[1] == __CPROVER_loop_entry(S->t[1]) + (S->t[0] < __CPROVER_loop_entry(S->t[0]) ? 1 : 0)) \
+	__CPROVER_loop_invariant(S->f[1] == __CPROVER_loop_entry(S->f[1])) \
+	__CPROVER_decreases(inlen)
 
 #define RXV_UPDATE_LOOP_INVARIANT \
 	__CPROVER_assigns(inlen, pin, __CPROVER_object_upto(S->h, sizeof(S->h)), __CPROVER_object_upto(S->t, sizeof(S->t)), RXV_LOG_ASSIGNS) \
